@@ -50,7 +50,7 @@ Qed.
 Lemma js_receiver_reify en pc x s : js_ok en x ->
   js_receiver (reify_e en pc x) s = if needs_paren en x then ("(" ++ s ++ ")")%string else s.
 Proof.
-  destruct x as [n|k|n|i|i|n|n|o a b|a|a|f args|f args|items|items|fam pid a|pid it mn]; intros Hok; cbn [reify_e needs_paren js_receiver]; try reflexivity.
+  destruct x as [n|k|n|i|i|n|n|o a b|a|a|f args|f args|items|items|fam pid a|pid it mn]; intros Hok; try (cbn [js_ok] in Hok; contradiction); cbn [reify_e needs_paren js_receiver]; try reflexivity.
   - rewrite str_of_int_no_quote. reflexivity.
   - destruct (nth k (e_consts en) (CInt 0)); cbn [const_node js_receiver]; [|rewrite str_of_int_no_quote; reflexivity].
     match goal with |- context[starts_with ?q ?t] => destruct (starts_with q t) end; reflexivity.
